@@ -105,7 +105,7 @@ pub struct SizesInfo {
 impl SizesInfo {
     /// Get the uncompressed block size of block `block_num`
     fn uncompressed_block_size_at(&self, block_num: usize) -> u32 {
-        if block_num < self.compressed_sizes.len() - 1 {
+        if block_num + 1 < self.compressed_sizes.len() {
             UNCOMPRESSED_DATA_SIZE
         } else {
             self.last_block_size
@@ -117,7 +117,12 @@ impl SizesInfo {
         let block_num = uncompressed_pos / u64::from(UNCOMPRESSED_DATA_SIZE);
         let index = usize::try_from(block_num)
             .map_err(|_| io::Error::new(io::ErrorKind::InvalidData, "Integer conversion failed"))?;
-        Ok(self.compressed_sizes[index])
+        // The sizes table comes from the archive: `last_block_size` may announce
+        // more blocks than the table holds
+        self.compressed_sizes.get(index).copied().ok_or_else(|| {
+            io::Error::new(io::ErrorKind::InvalidData, "Inconsistent compression sizes table")
+                .into()
+        })
     }
 
     /// Maximum uncompressed available position
@@ -501,8 +506,10 @@ impl<R: Read + Seek> Seek for CompressionLayerReader<'_, R> {
                         let distance_from_end = -pos;
                         if distance_from_end >= 0 {
                             self.seek(SeekFrom::Start(
-                                end_pos
-                                    - u64::try_from(distance_from_end).map_err(|_| {
+                                u64::try_from(distance_from_end)
+                                    .ok()
+                                    .and_then(|distance| end_pos.checked_sub(distance))
+                                    .ok_or_else(|| {
                                         io::Error::new(
                                             io::ErrorKind::InvalidInput,
                                             "Invalid distance_from_end value",
